@@ -10,10 +10,10 @@ import (
 )
 
 type goBuilder struct {
-	w    *World
-	m    *Model
-	home *types.Package // package the test lives in
-	fail string
+	w       *World
+	m       *Model
+	home    *types.Package // package the test lives in
+	fail    string
 	imports map[string]string
 }
 
